@@ -76,6 +76,44 @@ def _captures_map(e) -> Optional[bool]:
     return False
 
 
+def _foreign_calls(p: Project, ci, expr, nm: str, depth: int = 2) -> Optional[str]:
+    """name of a function (other than int / str / bool / a validator's convert) that is handed the field `nm` inside
+    `expr`; private helpers of the class / module are looked into"""
+    from .source import Func
+
+    for c in ast.walk(expr):
+        if not isinstance(c, ast.Call):
+            continue
+        takes = [i for i, a in enumerate(c.args) if any(isinstance(x, ast.Name) and x.id == nm for x in ast.walk(a))] or [k.arg for k in c.keywords if any(isinstance(x, ast.Name) and x.id == nm for x in ast.walk(k.value))]
+        if not takes:
+            continue
+        f = c.func
+        if isinstance(f, ast.Name) and f.id in ("int", "str", "bool", "isinstance", "len"):
+            continue
+        if isinstance(f, ast.Attribute) and f.attr in ("convert", "unconvert", "format", "debug", "info", "warning"):
+            continue
+        helper = None
+        if isinstance(f, ast.Attribute) and isinstance(f.value, ast.Name) and f.value.id in ("self", "cls") or isinstance(f, ast.Attribute) and isinstance(f.value, ast.Name) and f.value.id == ci.name:
+            _d, helper = ci.find_method(f.attr)
+        elif isinstance(f, ast.Name):
+            r = p.resolve(ci.module, f.id)
+            helper = r.node if isinstance(r, Func) else None
+        if helper is not None and depth > 0:
+            hp = [a.arg for a in helper.args.args if a.arg not in ("self", "cls")]
+            idx = takes[0]
+            pn = hp[idx] if isinstance(idx, int) and idx < len(hp) else (idx if isinstance(idx, str) else None)
+            if pn is None:
+                return text(f)
+            for r_ in ast.walk(helper):
+                if isinstance(r_, ast.Return) and r_.value is not None:
+                    inner = _foreign_calls(p, ci, r_.value, pn, depth - 1)
+                    if inner:
+                        return inner
+            continue
+        return text(f)
+    return None
+
+
 def b_rules(p: Project, rep: Report):
     schema = Schema(p)
     rep.rule("B-R1", "for both header classes the fields written by __str__, the named groups of the parsing regex and the constructor parameters agree (same set; same order for writer and regex); each written value is the attribute of the same name")
@@ -135,6 +173,12 @@ def b_rules(p: Project, rep: Report):
             # ... and is validated as given: a text normalised first (case-folded, stripped, padded) makes tokens
             # outside the domain pass as the valid token they resemble
             norm_calls = [c_ for c_ in ast.walk(s.value) if isinstance(c_, ast.Call) and isinstance(c_.func, ast.Attribute) and c_.func.attr in ("upper", "lower", "casefold", "title", "capitalize", "swapcase", "strip", "lstrip", "rstrip", "replace", "zfill", "translate", "removeprefix", "removesuffix") and any(isinstance(x, ast.Name) and x.id == nm for x in ast.walk(c_.func.value))]
+            if ok and not norm_calls:
+                # ... nor rewritten by any other function: only int()/str()/a validator's convert() may take the field
+                fc_ = _foreign_calls(p, ci, s.value, nm)
+                if fc_:
+                    rep.check("B-R2", f"{clsname}.__init__:{nm}:validated-as-given", False, f"self.{nm} = {text(s.value)[:60]}: the field passes through {fc_}(...) on its way into the header object, which rewrites values it recognises - the header then reports a {nm.upper()} that is not the one the file carries", hloc(p, s))
+                    continue
             if ok:
                 rep.check("B-R2", f"{clsname}.__init__:{nm}:validated-as-given", not norm_calls, f"self.{nm} = {text(s.value)[:60]}: the field is normalised with .{norm_calls[0].func.attr}() BEFORE it is validated, so a token outside the domain that differs from a valid one only by that normalisation (e.g. 'none', 'Type1') is accepted and yields a header object" if norm_calls else "", hloc(p, s))
         for prm in pnames_to_check:
@@ -537,6 +581,23 @@ def h_r1(p: Project, rep: Report):
         read_ids = [n.id for n in pcfg.nodes if n.stmt is not None and n.kind not in ("join", "handlers") and any(text(c.func) == f"{src}.read" for c in n.calls())]
         skipped = altered = wrong_codec = None
         seen_v1 = 0
+        # on EVERY returning path (v1 and v2) the decoded text is handed over as decoded: wrapped in nothing but a
+        # whitespace strip - a function applied to it (normalize, translate, sub, expandtabs ...) rewrites the body
+        rewritten = None
+        nret = 0
+        for q in ppl:
+            if q.outcome != "return" or not (isinstance(q.value, ast.Tuple) and len(q.value.elts) == 2):
+                continue
+            nret += 1
+            e_ = _PT.value_on_path(q, pcfg, q.value.elts[1], upto=len(q.nodes) - 1)
+            while isinstance(e_, ast.Call) and isinstance(e_.func, ast.Attribute) and e_.func.attr in ("strip", "lstrip", "rstrip") and not e_.args:
+                e_ = e_.func.value
+            if isinstance(e_, ast.Call) and not (isinstance(e_.func, ast.Attribute) and e_.func.attr in ("decode", "read", "getvalue")):
+                inner = [a_ for a_ in list(e_.args) + [k_.value for k_ in e_.keywords] if f"{src}.read(" in text(a_) or ".decode(" in text(a_)]
+                if inner:
+                    rewritten = (text(e_.func), _PT.simple_conds(q.conds))
+        if nret:
+            rep.check("H-R1", "parse_header:body-not-rewritten", rewritten is None, f"the decoded body is passed through {rewritten[0]}(...) before it is returned (taken when {rewritten[1]}): the parser is handed text that is not what the file holds" if rewritten else "", hloc(p, fn0))
         for q in ppl:
             if q.outcome != "return" or not any(i in q.nodes for i in v1parse):
                 continue
